@@ -969,6 +969,10 @@ func ParseBranchStmt(p *ParserZH) *syntax.BranchStmt {
 			return stmt
 		}
 	}
+	// EOF right after 如果: the mandatory condition & block are missing
+	if stmt.IfTrueBlock == nil {
+		panic(p.getInvalidSyntaxPeek())
+	}
 	return stmt
 }
 
